@@ -11,8 +11,9 @@ let wout_of = function
 let b1 x = atom x = "1"
 let eop_of = function
   | L [A "w"; dry; out] -> M.OWrite { M.w_dry = b1 dry; M.w_out = wout_of out }
-  | L [A "bulk"; atomic; cont; L outs] ->
-    M.OBulk (b1 atomic, b1 cont, List.map (fun o -> { M.w_dry = false; M.w_out = wout_of o }) outs)
+  | L [A "bulk"; atomic; cont; pre; L outs] ->
+    let pre = (match pre with A "ok" -> M.BPOk | A "fail" -> M.BPFail | A "cancel" -> M.BPCancel | _ -> failwith "bad prelude") in
+    M.OBulk (b1 atomic, b1 cont, pre, List.map (fun o -> { M.w_dry = false; M.w_out = wout_of o }) outs)
   | L [A "failcommit"; n] -> M.OFailCommit (nat_of_int (int_of_string (atom n)))
   | L [A "cancelcommit"; n] -> M.OCancelCommit (nat_of_int (int_of_string (atom n)))
   | L [A "disarm"] -> M.ODisarm
